@@ -8,7 +8,9 @@ import (
 	"fmt"
 	"time"
 
+	"github.com/btcsuite/btcd/chaincfg"
 	"github.com/btcsuite/btcd/wire"
+	"github.com/elementsproject/peerswap/lnd"
 	"github.com/elementsproject/peerswap/onchain"
 	"github.com/elementsproject/peerswap/swap"
 	"github.com/elementsproject/peerswap/txwatcher"
@@ -98,6 +100,16 @@ func (n *Node) bootWatchers(ctx context.Context) {
 	w := n.w
 	var btcW, lbtcW swap.TxWatcher
 	btcW = txwatcher.NewBlockchainRpcTxWatcher(ctx, &rpcStub{n: n, c: w.BTC}, onchain.BitcoinMinConfs)
+	if w.Plan.Scn.Adapter[n.ID] == "lnd" {
+		// tier 2: the lnd adapter's own watcher over the simulated LND's chain notifier
+		n.lnd = newFakeLnd(n)
+		lt, err := lnd.NewTxWatcher(ctx, n.lnd.cc, &chaincfg.RegressionNetParams, onchain.BitcoinMinConfs, onchain.BitcoinCsv)
+		if err != nil {
+			w.Infraf("lnd watcher: %v", err)
+			return
+		}
+		btcW = lt
+	}
 	lw, err := n.newLiquidWatcher(ctx)
 	if err != nil {
 		w.Infraf("liquid watcher: %v", err)
@@ -248,6 +260,9 @@ func (m *monC20) OnObs(w *World, o *Obs) {
 	if chain == "lbtc" && w.Plan.Scn.LiquidBackend[0] == "lwk" {
 		backend = "electrum"
 	}
+	if chain == "btc" && w.Plan.Scn.Adapter[0] == "lnd" {
+		backend = "lnd"
+	}
 	kind := "csv"
 	if o.Kind == "cb.conf" {
 		kind = "conf"
@@ -331,6 +346,9 @@ func (m *monC20) Final(w *World) {
 		backend := "rpc"
 		if reg.spec.Chain == "lbtc" && w.Plan.Scn.LiquidBackend[0] == "lwk" {
 			backend = "electrum"
+		}
+		if reg.spec.Chain == "btc" && w.Plan.Scn.Adapter[0] == "lnd" {
+			backend = "lnd"
 		}
 		// window closed long ago (the watcher saw several later blocks) and still no report at all
 		closed := uint64(reg.start) + uint64(reg.spec.Window)
